@@ -220,6 +220,18 @@ CANARIES = {
         },
     },
     "C20": {
+        "logrep_rtruediv_swapped": {
+            "module": "mici.utils",
+            "old": "        return other / self.val",
+            "new": "        return self.val / other",
+            "cases": ["specials"], "what": "plain / LogRepFloat computes the reciprocal quotient (mixed operations with plain numbers)",
+        },
+        "logrep_iadd_plain_not_logged": {
+            "module": "mici.utils",
+            "old": "            self.log_val = log_sum_exp(self.log_val, log(other))",
+            "new": "            self.log_val = log_sum_exp(self.log_val, other)",
+            "cases": ["algebra"], "what": "in-place accumulation of a plain number adds exp(number)",
+        },
         "log1m_exp_dead_branch": {
             "module": "mici.utils",
             "old": "    if val > -LOG_2:\n        return log(-expm1(val))",
